@@ -511,7 +511,7 @@ enum Role {
 }
 
 fn txid_of(p: &Pczt) -> Option<Vec<u8>> {
-    zcash_pool_migration::pczt_txid::pczt_txid(p).ok().map(|t| t.as_ref().to_vec())
+    catch(|| zcash_pool_migration::pczt_txid::pczt_txid(p).ok().map(|t| t.as_ref().to_vec())).flatten()
 }
 
 struct Ctx<'a> {
@@ -568,6 +568,7 @@ fn derivation(seed: u8, hardened: bool) -> (Vec<u32>, [u8; 32]) {
 
 /// A random Updater step. `tagv` differentiates the data written by different parties.
 fn updater_step(cx: &mut Ctx, p: &Pczt, tagv: u8) -> Option<Pczt> {
+    // (every library call below runs under `catch`: a panic is an outcome, not a harness crash)
     let g = p.clone();
     let n_tin = g.transparent().inputs().len();
     let n_tout = g.transparent().outputs().len();
@@ -586,7 +587,7 @@ fn updater_step(cx: &mut Ctx, p: &Pczt, tagv: u8) -> Option<Pczt> {
     let c = *cx.rng.pick(&choices);
     let key = format!("k{}", cx.rng.below(2));
     let val = vec![tagv, cx.rng.below(2) as u8];
-    let r = match c {
+    let r = catch(|| match c {
         0 => Some(Updater::new(g).update_global_with(|mut u| u.set_proprietary(key, val)).finish()),
         1 => {
             let i = cx.rng.below(n_tin as u64) as usize;
@@ -692,7 +693,8 @@ fn updater_step(cx: &mut Ctx, p: &Pczt, tagv: u8) -> Option<Pczt> {
         }
         9 => Updater::new(g).set_orchard_anchor(orchard::Anchor::empty_tree()).ok().map(|u| u.finish()),
         _ => Updater::new(g).set_ironwood_anchor(orchard::Anchor::empty_tree()).ok().map(|u| u.finish()),
-    };
+    })
+    .flatten();
     cx.role_case(Role::Updater, c, p, r.as_ref());
     r
 }
@@ -702,7 +704,7 @@ fn updater_step(cx: &mut Ctx, p: &Pczt, tagv: u8) -> Option<Pczt> {
 fn redactor_step(cx: &mut Ctx, p: &Pczt) -> Option<Pczt> {
     let c = cx.rng.below(12) as u32;
     let g = p.clone();
-    let r = match c {
+    let r = catch(|| match c {
         0 => Redactor::new(g).redact_global_with(|mut r| r.clear_proprietary()).finish(),
         1 => Redactor::new(g)
             .redact_transparent_with(|mut t| {
@@ -805,9 +807,9 @@ fn redactor_step(cx: &mut Ctx, p: &Pczt) -> Option<Pczt> {
                 });
             })
             .finish(),
-    };
-    cx.role_case(Role::Redactor, c, p, Some(&r));
-    Some(r)
+    });
+    cx.role_case(Role::Redactor, c, p, r.as_ref());
+    r
 }
 
 fn iofinalizer_step(cx: &mut Ctx, p: &Pczt) -> Option<Pczt> {
@@ -1058,7 +1060,7 @@ fn with_flags(p: &Pczt, flags: u8) -> Option<Pczt> {
     let (_, rest) = postcard::take_from_bytes::<Prefix>(body).ok()?;
     let pos = bytes.len() - rest.len();
     bytes[pos] = flags;
-    Pczt::parse(&bytes).ok()
+    catch(|| Pczt::parse(&bytes).ok()).flatten()
 }
 
 /// A copy whose Sapling `value_sum` differs (same spends and outputs): the last byte of its varint is
@@ -1074,7 +1076,7 @@ fn with_sapling_value_sum_tweak(p: &Pczt) -> Option<Pczt> {
         return None;
     }
     bytes[n - 37] ^= 0x02;
-    let q = Pczt::parse(&bytes).ok()?;
+    let q = catch(|| Pczt::parse(&bytes).ok()).flatten()?;
     if q.sapling().value_sum() == p.sapling().value_sum() || q.sapling().outputs().len() != p.sapling().outputs().len() {
         return None;
     }
@@ -1536,15 +1538,70 @@ fn tamper_output(p: &Pczt, ironwood: bool, idx: usize, kind: u32, rng: &mut Rng)
             bytes[at] ^= 1 << rng.below(8);
         }
     }
-    let q = Pczt::parse(&bytes).ok()?;
+    let q = catch(|| Pczt::parse(&bytes).ok()).flatten()?;
     Some(q)
 }
 
+
+/// A copy whose first transparent input requires a lock time (kind 0: height 500, kind 1: time
+/// 500000001): the `None` of the field is replaced by `Some(varint)` in the v2 encoding (the crate
+/// has no Constructor role that would set it).
+fn with_required_lock_time(p: &Pczt, kind: u32) -> Option<Pczt> {
+    let inp = p.transparent().inputs().first()?;
+    if inp.sequence().is_some() {
+        return None;
+    }
+    let mut pat: Vec<u8> = inp.prevout_txid().to_vec();
+    pat.extend_from_slice(&varint(*inp.prevout_index() as u64));
+    pat.extend_from_slice(&[0, 0, 0]); // sequence, required_time_lock_time, required_height_lock_time: None
+    let bytes = pczt::v2::Pczt::try_from(p.clone()).ok()?.serialize();
+    let pos = find_unique(&bytes, &pat)?;
+    let at = pos + pat.len() - if kind == 0 { 1 } else { 2 };
+    let mut out = bytes[..at].to_vec();
+    out.push(1);
+    out.extend_from_slice(&varint(if kind == 0 { 500 } else { 500_000_001 }));
+    out.extend_from_slice(&bytes[at + 1..]);
+    catch(|| Pczt::parse(&out).ok()).flatten()
+}
+
+/// Sign every transparent input, finalise the spends and extract, on a copy with a required lock time.
+fn lock_time_flow(cx: &mut Ctx, b: &Base, kind: u32) {
+    let t = match with_required_lock_time(&b.pczt, kind) {
+        Some(t) => t,
+        None => return,
+    };
+    cx.bump(&format!("required_lock_time{}", kind));
+    effects_case(cx, &t);
+    let mut p = t.clone();
+    if let Some(q) = iofinalizer_step(cx, &p) {
+        p = q;
+    }
+    let k = cx.k;
+    for i in 0..p.transparent().inputs().len() {
+        let r = catch(|| {
+            let mut s = Signer::new(p.clone()).ok()?;
+            s.sign_transparent(i, &k.t_sk).ok()?;
+            Some(s.finish())
+        })
+        .flatten();
+        cx.role_case(Role::Signer, 0, &p, r.as_ref());
+        if let Some(q) = r {
+            p = q;
+        }
+    }
+    if let Some(q) = spendfinalizer_step(cx, &p) {
+        extract_case(cx, &q);
+    }
+}
+
 fn compact_all(p: &Pczt) -> Pczt {
-    Redactor::new(p.clone())
-        .redact_orchard_with(|mut o| o.compact_resolvable_fields())
-        .redact_ironwood_with(|mut o| o.compact_resolvable_fields())
-        .finish()
+    catch(|| {
+        Redactor::new(p.clone())
+            .redact_orchard_with(|mut o| o.compact_resolvable_fields())
+            .redact_ironwood_with(|mut o| o.compact_resolvable_fields())
+            .finish()
+    })
+    .unwrap_or_else(|| p.clone())
 }
 
 /// Role steps on tampered copies: the identifier and the (resolved) effecting fields must not move.
@@ -1685,7 +1742,7 @@ fn main() {
 
     let mut run = |rng: &mut Rng, shapes: &mut Shapes, spec: &Spec, mode: u32| {
         let k = if spec.v6 { &k6 } else { &k5 };
-        let b = match build_base(spec, k, rng) {
+        let b = match catch(|| build_base(spec, k, rng)).flatten() {
             Some(b) => b,
             None => return,
         };
@@ -1769,10 +1826,7 @@ fn main() {
         }
         // compaction of resolvable fields (memo plaintext instead of the ciphertext), then encode
         if spec.oout + spec.iout > 0 {
-            let r = Redactor::new(b.pczt.clone())
-                .redact_orchard_with(|mut o| o.compact_resolvable_fields())
-                .redact_ironwood_with(|mut o| o.compact_resolvable_fields())
-                .finish();
+            let r = compact_all(&b.pczt);
             cx.role_case(Role::Redactor, 20, &b.pczt, Some(&r));
             ser_case(&mut cx, &r);
             effects_case(&mut cx, &r);
@@ -1808,6 +1862,7 @@ fn main() {
                 }
             }
             extract_case(&mut cx, &b.pczt);
+            lock_time_flow(&mut cx, &b, mode % 2);
         }
         total += cx.n_cases;
         for (k, v) in cx.stats {
@@ -1831,12 +1886,16 @@ fn main() {
         corpus.push((Spec { v6: true, deferred: true, ospend: true, iout: 1, ..Default::default() }, mode));
     }
     for (s, m) in corpus.iter() {
-        run(&mut rng, &mut shapes, s, *m);
+        if catch(|| run(&mut rng, &mut shapes, s, *m)).is_none() {
+            stat("{\"scenario_panicked\": 1}".into());
+        }
     }
     for _ in 0..n_scen {
         let s = random_spec(&mut rng);
         let m = rng.below(4) as u32;
-        run(&mut rng, &mut shapes, &s, m);
+        if catch(|| run(&mut rng, &mut shapes, &s, m)).is_none() {
+            stat("{\"scenario_panicked\": 1}".into());
+        }
     }
     drop(run);
 
